@@ -98,8 +98,10 @@ def source_shapes(w, rng):
     """The documented shapes of one structured source value."""
     out = [("wire", w)]
     try:
-        out.append(("json", json.dumps(w)))
-        out.append(("jsonbytes", json.dumps(w).encode()))
+        js = json.dumps(w)
+        if json.loads(js) == w:          # JSON text stands for the wire value only if it reads back as it (str keys)
+            out.append(("json", js))
+            out.append(("jsonbytes", js.encode()))
     except (TypeError, ValueError):
         pass
     out.append(("repr", repr(w)))
